@@ -117,17 +117,55 @@ def reachable_without_edges(body, start, removed_edges, avoid=()):
     return body.reachable(start, avoid=avoid, edge_filter=lambda a, b: (a, b) not in removed_edges)
 
 
+def infeasible_edges(body):
+    """CFG edges no execution takes: the false side of `0 <= x` / `x >= 0` and the true side of `x < 0` / `0 > x` for an
+    unsigned x (a range pattern `0..=23` on a usize is compiled with both bounds tested)"""
+    cached = getattr(body, "_infeasible", None)
+    if cached is not None:
+        return cached
+    out = set()
+    for s in sorted(body.reachable(0)):
+        t = body.term(s)
+        if t["k"] != "switch" or t.get("dty") != "bool":
+            continue
+        e = peel(switch_discr_expr(body, s), through_try=False)
+        if e is None or e.k != "bin" or e.op not in ("Le", "Ge", "Lt", "Gt"):
+            continue
+        a, b = peel(e.a, through_try=False), peel(e.b, through_try=False)
+        uns = lambda x: str(getattr(x, "ty", "") or "").startswith(("usize", "u8", "u16", "u32", "u64", "u128"))
+        always = None
+        if e.op == "Le" and a.k == "const" and a.v == 0 and uns(a):
+            always = True
+        elif e.op == "Ge" and b.k == "const" and b.v == 0 and uns(b):
+            always = True
+        elif e.op == "Lt" and b.k == "const" and b.v == 0 and uns(b):
+            always = False
+        elif e.op == "Gt" and a.k == "const" and a.v == 0 and uns(a):
+            always = False
+        if always is None:
+            continue
+        bt = bool_edge_targets(body, s)
+        if not bt or bt[0] == bt[1]:
+            continue
+        tr, fa = bt
+        out.add((s, fa if always else tr))
+    body._infeasible = out
+    return out
+
+
 def must_pass_edge(body, target_bb, edge):
     """True iff every path entry->target_bb uses CFG edge `edge` (a,b).  Under `restricted_paths(body, avoid)` only paths that
     stay clear of the avoided blocks are considered."""
     if target_bb == 0:
         return False
+    inf = infeasible_edges(body)
+    cut = ({edge} | inf) if inf else {edge}
     av = getattr(body, "_avoid", None)
     if av:
         if 0 in av or target_bb in av or target_bb not in body.reachable(0, avoid=av):
             return False
-        return target_bb not in reachable_without_edges(body, 0, {edge}, avoid=av)
-    if target_bb not in reachable_without_edges(body, 0, {edge}):
+        return target_bb not in reachable_without_edges(body, 0, cut, avoid=av)
+    if target_bb not in reachable_without_edges(body, 0, cut):
         return True
     if getattr(body, "inlined", None):
         # an inlined view: a helper's result joins before the caller matches on it (`match self.fetch()? { Nothing => ..}`), so
